@@ -300,7 +300,14 @@ type WaitGroup struct {
 	n    int
 	ch   chan struct{}
 	h    uint64
+	// onZero, when set by a harness (SetOnZero), runs on the thread whose Add/Done brings the
+	// counter to zero, at that very step and inside an atomic section: an oracle for "at the moment
+	// of the acknowledgement ..." that needs no extra thread (hence no extra schedules).
+	onZero func()
 }
+
+// SetOnZero installs fn as the oracle run at the step that brings w's counter to zero.
+func SetOnZero(w *WaitGroup, fn func()) { w.onZero = fn }
 
 func (w *WaitGroup) Add(delta int) {
 	t := vsched.Cur()
@@ -317,11 +324,18 @@ func (w *WaitGroup) Add(delta int) {
 		t.Acq(&w.h, cWgAdd)
 	}
 	var ch chan struct{}
+	var hook func()
 	if w.n == 0 {
 		ch = w.ch
 		w.ch = nil
+		hook = w.onZero
 	}
 	w.meta.Unlock()
+	if hook != nil && t != nil {
+		t.BeginAtomic()
+		hook()
+		t.EndAtomic()
+	}
 	if ch != nil {
 		close(ch)
 	}
